@@ -7,8 +7,8 @@
      pandapower/pf/run_newton_raphson_pf.py           _get_Y_bus (:105-114), _get_Sbus (:139-145)
      pandapower/timeseries/output_writer.py           get_batch_outputs (:556-589)
    The ppc is split into parts; [deps] is the finite table "which part is computed from net[element][variable]"
-   (transcribed from build_bus.py / build_branch.py / build_gen.py / results_branch.py).  Executable definitions only. *)
-From Coq Require Import List Bool String.
+   (build_bus.py / build_branch.py / build_gen.py; re-derived from the code and compared on every run).  Executable definitions only. *)
+From Coq Require Import List Bool String ZArith.
 From PPV Require Import Base.Out.
 Import ListNotations.
 Open Scope string_scope.
@@ -25,30 +25,51 @@ Definition memp (p : part) (l : list part) : bool := existsb (part_eqb p) l.
 Definition mems (s : string) (l : list string) : bool := existsb (String.eqb s) l.
 
 (* ---------------------------------------------------------------- the dependency table *)
-(* base parts of the ppc computed from net[e][v]; [] = read only when results are extracted (never cached) *)
+(* base parts of the ppc computed from net[e][v]; [] = not read for the power flow (results / OPF / short circuit only).
+   One row = (element tables, columns, parts).  The table is compared on EVERY run of the check with a table derived
+   mechanically from the real code (harness/vf/c12_deps.py: perturb the cell, rebuild the ppc with a fresh _pd2ppc, diff the
+   ppc columns the Newton-Raphson power flow reads; pandas access trace as a superset witness) over the whole [domain].
+   "part P is computed from (e, v)" is meant as observed there: changing net[e][v] changes the ppc rows / columns of P.  For the
+   topology-like columns (in_service, bus references, net.bus, net.switch) the parts next to PTopo are the knock-on effects
+   (BR_STATUS of the element's own rows, per-bus sums moving to another bus, base voltage of the connected branches). *)
+Definition deps_rows : list (list string * list string * list part) :=
+  [ (["load"], ["p_mw"; "q_mvar"; "scaling"; "const_z_p_percent"; "const_i_p_percent"; "const_z_q_percent"; "const_i_q_percent";
+               "in_service"; "bus"], [PBusPQ]);                                     (* build_bus.py _calc_pq_elements_and_add_on_ppc *)
+    (["sgen"; "storage"], ["p_mw"; "q_mvar"; "scaling"; "in_service"; "bus"], [PBusPQ]);
+    (["gen"], ["p_mw"; "vm_pu"; "scaling"; "min_q_mvar"; "max_q_mvar"], [PGen]);      (* build_gen.py _build_pp_gen *)
+    (["gen"], ["in_service"; "bus"], [PGen; PTopo]);
+    (["gen"], ["slack"], [PTopo]);                                                  (* bus type REF instead of PV *)
+    (["ext_grid"], ["vm_pu"; "va_degree"], [PGen]);                                  (* build_gen.py _build_pp_ext_grid *)
+    (["ext_grid"], ["in_service"; "bus"], [PGen; PTopo]);
+    (["trafo"], ["tap_pos"; "vk_percent"; "vkr_percent"; "pfe_kw"; "i0_percent"; "sn_mva"; "parallel"; "tap_step_percent"; "shift_degree";
+                "vn_hv_kv"; "vn_lv_kv"; "tap_side"; "tap_neutral"; "tap_step_degree"; "tap_changer_type"; "id_characteristic_table";
+                "tap_dependency_table"], [PBrTrafo]);                               (* build_branch.py _calc_trafo_parameter; df: results only *)
+    (["trafo"], ["in_service"; "hv_bus"; "lv_bus"], [PBrTrafo; PTopo]);
+    (["trafo3w"], ["tap_pos"; "vk_hv_percent"; "vk_mv_percent"; "vk_lv_percent"; "vkr_hv_percent"; "vkr_mv_percent"; "vkr_lv_percent";
+                  "sn_hv_mva"; "sn_mv_mva"; "sn_lv_mva"; "vn_hv_kv"; "vn_mv_kv"; "vn_lv_kv"; "pfe_kw"; "i0_percent"; "shift_mv_degree";
+                  "shift_lv_degree"; "tap_side"; "tap_neutral"; "tap_step_percent"; "tap_step_degree"; "tap_at_star_point"; "tap_changer_type";
+                  "id_characteristic_table"; "tap_dependency_table"], [PBrTrafo]);   (* _calc_trafo3w_parameter, _trafo_df_from_trafo3w *)
+    (["trafo3w"], ["in_service"; "hv_bus"; "mv_bus"; "lv_bus"], [PBrTrafo; PTopo]);
+    (["line"], ["length_km"; "r_ohm_per_km"; "x_ohm_per_km"; "c_nf_per_km"; "g_us_per_km"; "parallel"], [PBrLine]);
+                                                                                    (* _calc_line_parameter; max_i_ka, df: results only *)
+    (["line"], ["in_service"; "from_bus"], [PBrLine; PTopo]);                        (* from_bus: base impedance of the row *)
+    (["line"], ["to_bus"], [PTopo]);
+    (["shunt"], ["q_mvar"; "p_mw"; "step"; "in_service"; "vn_kv"; "bus"], [PShunt]);  (* build_bus.py _calc_shunts_and_add_on_ppc *)
+    (["ward"], ["ps_mw"; "qs_mvar"], [PBusPQ]);
+    (["ward"], ["pz_mw"; "qz_mvar"], [PShunt]);
+    (["ward"], ["in_service"; "bus"], [PBusPQ; PShunt]);
+    (["impedance"], ["rft_pu"; "xft_pu"; "rtf_pu"; "xtf_pu"; "gf_pu"; "bf_pu"; "gt_pu"; "bt_pu"; "sn_mva"], [PBrOther]);
+                                                                                    (* _calc_impedance_parameter *)
+    (["impedance"], ["in_service"], [PBrOther; PTopo]);
+    (["impedance"], ["from_bus"; "to_bus"], [PTopo]);
+    (["bus"], ["vn_kv"], [PBrTrafo; PBrLine; PBrOther; PShunt]);                     (* BASE_KV: per-unit values of the connected rows *)
+    (["bus"], ["in_service"], [PBusPQ; PGen; PBrOther; PShunt; PTopo]);
+    (["switch"], ["bus"; "et"; "closed"; "z_ohm"], [PBusPQ; PGen; PBrOther; PTopo]);   (* bus fusing, auxiliary buses, switch branch rows *)
+    (["switch"], ["element"], [PBusPQ; PBrOther; PTopo]) ].
+Definition row_matches (e v : string) (r : list string * list string * list part) : bool :=
+  mems e (fst (fst r)) && mems v (snd (fst r)).
 Definition deps (e v : string) : list part :=
-  if mems e ["load"; "sgen"; "storage"] then
-    (if mems v ["p_mw"; "q_mvar"; "scaling"; "const_z_p_percent"; "const_i_p_percent"; "const_z_q_percent"; "const_i_q_percent"; "in_service"; "sn_mva"]
-     then [PBusPQ] else [])
-  else if e =? "gen" then
-    (if mems v ["p_mw"; "vm_pu"; "scaling"; "min_q_mvar"; "max_q_mvar"] then [PGen]
-     else if v =? "in_service" then [PGen; PTopo] else [])
-  else if e =? "ext_grid" then
-    (if mems v ["vm_pu"; "va_degree"] then [PGen] else if v =? "in_service" then [PGen; PTopo] else [])
-  else if e =? "trafo" then
-    (if mems v ["tap_pos"; "vk_percent"; "vkr_percent"; "pfe_kw"; "i0_percent"; "sn_mva"; "parallel"; "tap_step_percent"; "shift_degree"]
-     then [PBrTrafo] else if v =? "in_service" then [PBrTrafo; PTopo] else [])          (* df: results only *)
-  else if e =? "trafo3w" then
-    (if mems v ["tap_pos"; "vk_hv_percent"; "vk_mv_percent"; "vk_lv_percent"; "vkr_hv_percent"; "tap_step_percent"]
-     then [PBrTrafo] else if v =? "in_service" then [PBrTrafo; PTopo] else [])
-  else if e =? "line" then
-    (if mems v ["length_km"; "r_ohm_per_km"; "x_ohm_per_km"; "c_nf_per_km"; "g_us_per_km"; "parallel"]
-     then [PBrLine] else if v =? "in_service" then [PBrLine; PTopo] else [])            (* max_i_ka, df: results only *)
-  else if e =? "shunt" then (if mems v ["q_mvar"; "p_mw"; "step"; "in_service"] then [PShunt] else [])
-  else if e =? "ward" then
-    (if mems v ["ps_mw"; "qs_mvar"] then [PBusPQ] else if mems v ["pz_mw"; "qz_mvar"] then [PShunt] else [])
-  else if e =? "impedance" then (if mems v ["rft_pu"; "xft_pu"; "rtf_pu"; "xtf_pu"; "in_service"] then [PBrOther] else [])
-  else [].
+  match find (row_matches e v) deps_rows with Some r => snd r | None => [] end.
 
 (* derived parts and what they are assembled from (makeYbus: branch rows, bus shunts, topology; makeSbus: bus PD/QD, gen) *)
 Definition sources (p : part) : list part :=
@@ -58,15 +79,23 @@ Definition sources (p : part) : list part :=
   | _ => []
   end.
 
-(* the domain of the exhaustive theorems: every (element, variable) named in [deps] plus result-only and unknown ones *)
-Definition domain : list (string * string) :=
-  flat_map (fun e => map (fun v => (e, v))
+(* the domain of the exhaustive theorems: 13 element tables x 81 columns = 1053 pairs: every (element, variable) named in
+   [deps_rows] (proved: Proofs.deps_in_domain), every column the access trace sees read inside a ppc build function, plus
+   result-only and unknown ones *)
+Definition domain_elements : list string :=
+  ["load"; "sgen"; "storage"; "gen"; "ext_grid"; "trafo"; "trafo3w"; "line"; "shunt"; "ward"; "impedance"; "bus"; "switch"].
+Definition domain_columns : list string :=
     ["p_mw"; "q_mvar"; "scaling"; "const_z_p_percent"; "const_i_p_percent"; "const_z_q_percent"; "const_i_q_percent"; "in_service"; "sn_mva";
      "vm_pu"; "va_degree"; "min_q_mvar"; "max_q_mvar"; "tap_pos"; "vk_percent"; "vkr_percent"; "pfe_kw"; "i0_percent"; "parallel";
      "tap_step_percent"; "shift_degree"; "df"; "vk_hv_percent"; "vk_mv_percent"; "vk_lv_percent"; "vkr_hv_percent";
      "length_km"; "r_ohm_per_km"; "x_ohm_per_km"; "c_nf_per_km"; "g_us_per_km"; "max_i_ka"; "step"; "ps_mw"; "qs_mvar"; "pz_mw"; "qz_mvar";
-     "rft_pu"; "xft_pu"; "rtf_pu"; "xtf_pu"; "name"; "max_loading_percent"])
-    ["load"; "sgen"; "storage"; "gen"; "ext_grid"; "trafo"; "trafo3w"; "line"; "shunt"; "ward"; "impedance"; "bus"; "switch"].
+     "rft_pu"; "xft_pu"; "rtf_pu"; "xtf_pu"; "name"; "max_loading_percent";
+     "bus"; "hv_bus"; "mv_bus"; "lv_bus"; "from_bus"; "to_bus"; "vn_kv"; "vn_hv_kv"; "vn_mv_kv"; "vn_lv_kv"; "tap_side"; "tap_neutral";
+     "tap_min"; "tap_max"; "tap_step_degree"; "tap_changer_type"; "id_characteristic_table"; "tap_dependency_table"; "tap_at_star_point";
+     "sn_hv_mva"; "sn_mv_mva"; "sn_lv_mva"; "vkr_mv_percent"; "vkr_lv_percent"; "shift_mv_degree"; "shift_lv_degree";
+     "gf_pu"; "bf_pu"; "gt_pu"; "bt_pu"; "slack"; "slack_weight"; "max_step"; "step_dependency_table"; "element"; "et"; "closed"; "z_ohm"].
+Definition domain : list (string * string) :=
+  flat_map (fun e => map (fun v => (e, v)) domain_columns) domain_elements.
 
 (* ---------------------------------------------------------------- recycle flags *)
 Record flags := { f_trafo : bool; f_gen : bool; f_bus_pq : bool }.
@@ -210,12 +239,13 @@ Definition sound_old (c : ctrl) : bool :=
   | Some f => solve_is_fresh (recycled_pf f (write (ctrl_writes c) all_fresh))
   end.
 (* G12a: syntactic description of the (element, variable) pairs that were sound under the OLD rule: everything except the power-flow
-   relevant columns of net.line (recycled under the flag "trafo", which rebuilds transformers only) and in_service of
-   transformers (the branch rows are rebuilt but the topology / bus types are not) *)
+   relevant columns of net.line (recycled under the flag "trafo", which rebuilds transformers only) and in_service / the bus
+   columns of transformers (the branch rows are rebuilt but the topology / bus types are not) *)
 Definition line_pf_vars : list string :=
-  ["length_km"; "r_ohm_per_km"; "x_ohm_per_km"; "c_nf_per_km"; "g_us_per_km"; "parallel"; "in_service"].
+  ["length_km"; "r_ohm_per_km"; "x_ohm_per_km"; "c_nf_per_km"; "g_us_per_km"; "parallel"; "in_service"; "from_bus"; "to_bus"].
 Definition G12a (e v : string) : bool :=
-  negb ((e =? "line") && mems v line_pf_vars) && negb (mems e ["trafo"; "trafo3w"] && (v =? "in_service")).
+  negb ((e =? "line") && mems v line_pf_vars) && negb ((e =? "trafo") && mems v ["in_service"; "hv_bus"; "lv_bus"])
+  && negb ((e =? "trafo3w") && mems v ["in_service"; "hv_bus"; "mv_bus"; "lv_bus"]).
 
 (* ---------------------------------------------------------------- OutputWriter: batch eligibility and batch readers *)
 (* one entry of ow.log_variables: 2-tuples come from the constructor argument, entries added by log_variable() are longer *)
@@ -331,3 +361,19 @@ Definition run_ts_div (cs : list ctrl) (divs : list bool) (l : list logv) : out 
        olist (fun r => match r with SFailed => ONone | SSolved fr => OB (solve_is_fresh fr) | SSilent => OS "silent" end)
              (run_steps_div divs cs false all_fresh);
        owres (ts_writer rec l) ].
+
+(* ---- the dependency table and the recycled power flow for the mechanical comparison (harness/vf/c12_deps.py) *)
+Definition opart (p : part) : out :=
+  OS (match p with PBusPQ => "PBusPQ" | PGen => "PGen" | PBrTrafo => "PBrTrafo" | PBrLine => "PBrLine" | PBrOther => "PBrOther"
+             | PShunt => "PShunt" | PTopo => "PTopo" | PYbus => "PYbus" | PSbus => "PSbus" end).
+(* the domain by its two axes (domain = their product by definition) and its size *)
+Definition run_domain : out := OL [olist OS domain_elements; olist OS domain_columns; OZ (Z.of_nat (List.length domain))].
+(* deps and the ConstControl recycle entry for a list of pairs *)
+Definition run_deps (l : list (string * string)) : out :=
+  olist (fun ev => OL [olist opart (deps (fst ev) (snd ev)); oflags (set_recycle_const false (fst ev) (snd ev))]) l.
+(* which parts a recycled power flow under the flags rebuilds: start with only p stale, ask whether p is fresh afterwards *)
+Definition rebuilt_part (f : flags) (p : part) : bool :=
+  recycled_pf f (fun q => negb (part_eqb q p)) p.
+Definition run_rebuilt (t g b : bool) : out :=
+  let f := {| f_trafo := t; f_gen := g; f_bus_pq := b |} in
+  olist opart (filter (rebuilt_part f) all_parts).
